@@ -39,3 +39,5 @@ def c05(ctx: Ctx):
                 "constrained schema) x values x required x presence (present / absent / garbage kinds) x decoy parameter whose name extends "
                 "the parameter's; non-trivial = every case except present plain strings")
     ctx.validate("Trace_C05", "Trace_C05.cfg", logp, chunk_lines=400)
+    if os.environ.get("VERIF_DUMP"):        # debugging aid: every rejected line as written by the trace spec
+        write_ndjson(os.environ["VERIF_DUMP"], ctx.violations)
